@@ -50,6 +50,18 @@ func (h HelperMap) Helpers() map[string]interface{} {
 	return h.helpers
 }
 
+// All returns a copy of the helpers in the map, taken under the map's lock, so
+// that ranging over it is safe while helpers are being added.
 func (h HelperMap) All() map[string]interface{} {
-	return h.helpers
+	if h.moot != nil {
+		h.moot.Lock()
+		defer h.moot.Unlock()
+	}
+
+	m := make(map[string]interface{}, len(h.helpers))
+	for k, v := range h.helpers {
+		m[k] = v
+	}
+
+	return m
 }
